@@ -7,6 +7,13 @@ import nv
 BASEMAP = {"Length": "L", "Time": "T", "Mass": "M"}
 
 
+class SetupRejected(Exception):
+    """a catalogue definition that the specification types as accepted was not accepted by the implementation"""
+    def __init__(self, info):
+        Exception.__init__(self, info["statement"])
+        self.info = info
+
+
 def gen_and_run(tier, d, workers=8):
     cfg = os.path.join(nv.SPEC, "_gen_Typing_%d.cfg" % os.getpid())
     with open(cfg, "w") as f:
@@ -28,7 +35,13 @@ def gen_and_run(tier, d, workers=8):
     inp = os.path.join(d, "typing_cases.ndjson")
     out = os.path.join(d, "typing_out.ndjson")
     nv.write_ndjson(inp, [{"setup": meta["setup"]}] + [{"id": i, "s1": c["s1"], "s2": c["s2"]} for i, c in enumerate(cases)])
-    nv.harness("nv-typing", ["typing-run", "--cases", inp, "--out", out])
+    p = nv.harness("nv-typing", ["typing-run", "--cases", inp, "--out", out], check=False)
+    if p.returncode == 3 and "SETUP-REJECTED " in p.stderr:
+        # a definition of the catalogue (predicted: accepted) was rejected or crashed the interpreter
+        info = json.loads(p.stderr.split("SETUP-REJECTED ", 1)[1].splitlines()[0])
+        raise SetupRejected(info)
+    if p.returncode != 0:
+        raise nv.ToolError("harness nv-typing typing-run failed (%d):\n%s" % (p.returncode, p.stderr[-4000:]))
     rows = nv.read_ndjson_text(open(out, encoding="utf-8").read())
     global DIMTABLE
     DIMTABLE = {n: {BASEMAP.get(b, b): Fraction(int(x), int(y)) for b, x, y in v} for n, v in rows[0]["dimension_names"].items()}
